@@ -26,7 +26,7 @@
 //!           length the kind and array length need on the target, buffer addresses take 8 bytes each at
 //!           consecutive offsets of one inline block whose slot follows all index slots and whose size is their
 //!           sum, ungrouped resources are in the default group of THIS pipeline (0 in no-pipeline mode).
-use super::{parse_decl, show_decl, Decl, DOUBLED, KINDS};
+use super::{is_resource, parse_decl, show_decl, spelling, Decl, DOUBLED, KINDS};
 use crate::compile_util::{Mode, Tgt, ALL_TARGETS};
 use crate::util::*;
 
@@ -324,7 +324,7 @@ pub fn source(p: &Prog) -> String {
                 }
             }
             Decl::Global { set, ss, kind: Some(k), len } => {
-                let ty = KINDS.iter().find(|x| x.0 == *k).unwrap().1;
+                let ty = spelling(k);
                 let (before, after) = binding_text(r, *set, Some(reg_class(k)));
                 line.push_str(&format!("{}{} {}{}", before, ty, declarator(r, *len), after));
                 if *ss {
@@ -339,7 +339,7 @@ pub fn source(p: &Prog) -> String {
                 line.push(';');
             }
             Decl::StaticObject { set, kind, len } => {
-                let ty = KINDS.iter().find(|x| x.0 == *kind).unwrap().1;
+                let ty = spelling(kind);
                 let (before, after) = binding_text(r, *set, Some(reg_class(kind)));
                 line.push_str(&format!("{}static {} {}{}", before, ty, declarator(r, *len), after));
                 while i + consumed < p.res.len() && can_join(&p.res[i + consumed - 1], &p.res[i + consumed]) {
@@ -366,8 +366,9 @@ pub fn source(p: &Prog) -> String {
             Decl::CBuffer(_) => format!("    {}{}_v;\n", q, r.name),
             Decl::Global { kind: Some(_), len, .. } => {
                 if r.dim2 {
-                    // never mentioned in a function: a global without a slot that a Metal entry point reaches is the
-                    // known C08 panic (msl/src/generator/pipeline.rs, unwrap of the missing argument-buffer index)
+                    // never mentioned in a function: a global without a slot that a Metal entry point reaches makes the
+                    // Metal exporter return `UnboundGlobal` (a clean error since fix 2ba03a4, a panic before it) and
+                    // there would be no metadata left to judge
                     String::new()
                 } else if len.is_some() || r.unsized_arr {
                     format!("    {}{}[0u];\n", q, r.name)
@@ -549,6 +550,9 @@ fn demand(r: &Res, tgt: Tgt, dflt: u32) -> Option<(u32, bool, u32, u32)> {
         Decl::CBuffer(s) => Some((s.unwrap_or(dflt), false, 1, 1)),
         Decl::Global { kind: None, .. } => None,
         Decl::Global { ss: true, .. } if metal => None,
+        // not a resource (RayDesc, RayQuery, TriangleStream): takes nothing (only reachable through hand-written request
+        // lines: the generator does not emit them because the HLSL exporter rejects such a global)
+        Decl::Global { kind: Some(k), .. } if !is_resource(k) => None,
         Decl::Global { set, kind: Some(k), len, .. } => {
             let g = set.unwrap_or(dflt);
             let is_ba = *k == "BufferAddress" || *k == "RWBufferAddress";
